@@ -616,7 +616,8 @@ func (r *Resolver) ResolveGraphQLDeferResponse(ctx *Context, response *GraphQLDe
 		// defer is gated on its anchor surviving the initial render; a defer whose
 		// anchor null-propagated is pruned away here. Nested defers are announced
 		// lazily as their parent is released (see ResolveDeferBatch).
-		if response.DeferTree != nil {
+		// With "data":null the initial frame announced nothing (see Resolvable.Resolve).
+		if response.DeferTree != nil && resolvable.wroteData {
 			liveTop := resolvable.liveChildDescriptors(0)
 			liveTree := pruneDeadDefers(response.DeferTree, liveTop)
 			if liveTree != nil {
